@@ -59,6 +59,8 @@ class ParserTable:
     terminals: dict             # tag -> kind
     tagvars: dict               # module variable name -> tag string
     module: object = None
+    # prefix tag -> tags of literal tokens read by parse_terminal directly
+    prefix_terminal_if: dict = field(default_factory=dict)
 
     def prec(self, name):
         if isinstance(name, int):
@@ -322,8 +324,41 @@ def _recognise_postfix(tags, guard, gop, body, params, table):
     if tag == "comma":
         precs = {_parse_prec(ast_call_value(e)) for es in parse_calls_per_path
                  for e in es}
+        # a container that has been closed by its bracket is a finished value:
+        # a following comma must wrap it, not absorb / extend it
+
+        def not_final(ps):
+            for _, pol, c in ps.conds:
+                parts = [(c, pol)]
+                if isinstance(c, tuple) and c[0] == "boolop" and c[1] == "And" \
+                        and pol:
+                    parts = [(x, True) for x in c[2]]
+                for x, p_ in parts:
+                    while isinstance(x, tuple) and x[0] == "unop" and \
+                            x[1] == "Not":
+                        x, p_ = x[2], not p_
+                    if isinstance(x, tuple) and x[0] == "call" and \
+                            x[1] == "isinstance" and x[2][0] == LEFT and \
+                            "FinalizedContainer" in str(x[2][1]) and not p_:
+                        return True
+            return False
+
+        flags = {"trailing": True, "extend": True}
+        seen = set()
+        for ps in pss:
+            rv = ps.retval
+            if rv == LEFT:
+                seen.add("trailing")
+                flags["trailing"] &= not_final(ps)
+            elif rv[0] == "lit" and rv[1] == "tuple" and rv[2] and \
+                    rv[2][0] == ("star", LEFT):
+                seen.add("extend")
+                flags["extend"] &= not_final(ps)
+        if seen != {"trailing", "extend"}:
+            raise AnalysisError("comma branch: absorb/extend paths not recognised")
         return Branch(tags, guard, gop, "COMMA", "Tuple",
-                      right_prec=precs.pop() if len(precs) == 1 else None)
+                      right_prec=precs.pop() if len(precs) == 1 else None,
+                      extra={"final_respected": flags})
     # --- infix operators ----------------------------------------------------------------
     clss = {(_clsname(v[1]) if v[0] == "call" else None) for v in vals}
     if len(clss) != 1 or None in clss:
@@ -462,7 +497,12 @@ def _extract_prefix(model, P, table):
             continue
         vals = {ps.retval for ps in pss}
         if len(vals) != 1:
-            raise AnalysisError(f"prefix {tag}: several results")
+            ent = _prefix_with_terminal_shortcut(tag, pss, table)
+            if ent is None:
+                raise AnalysisError(f"prefix {tag}: several results")
+            table.prefix[tag] = ent[:2]
+            table.prefix_terminal_if[tag] = ent[2]
+            continue
         v = vals.pop()
         if v[0] == "call" and _clsname(v[1]) == "Wildcard":
             table.prefix[tag] = ("wildcard", None)
@@ -474,6 +514,48 @@ def _extract_prefix(model, P, table):
             table.prefix[tag] = (_clsname(v[1]), _parse_prec(v[2][0]))
         else:
             raise AnalysisError(f"prefix {tag}: result {v} not recognised")
+
+
+def _prefix_with_terminal_shortcut(tag, pss, table):
+    """A prefix operator whose operand is read by parse_terminal when the next
+    token is one of a few literal tags and by parse_expression(prec) otherwise
+    -> (kind, prec, frozenset(tags)); None if the branch is something else."""
+    def split(v):
+        """-> (kind, operand value)"""
+        if v[0] == "unop" and v[1] == "USub":
+            return "neg", v[2]
+        if v[0] == "call" and len(v[2]) == 1 and _clsname(v[1]):
+            return _clsname(v[1]), v[2][0]
+        return "pos", v
+
+    def is_terminal_call(v):
+        return isinstance(v, tuple) and v[0] == "call" and \
+            v[1] == "self.parse_terminal"
+
+    kinds, precs, tags = set(), set(), set()
+    for ps in pss:
+        kind, operand = split(ps.retval)
+        kinds.add(kind)
+        nexts = set()
+        for _, pol, c in ps.conds:
+            for sub in _walk(c):
+                if isinstance(sub, tuple) and sub and sub[0] == "call" and \
+                        sub[1] == "pstate.is_next" and sub[2] and \
+                        sub[2][0][0] == "global":
+                    nexts.add((table.tagvars.get(sub[2][0][1]), pol))
+        if is_terminal_call(operand):
+            if not nexts or not all(pol for _, pol in nexts):
+                return None
+            tags.update(t for t, _ in nexts)
+        elif _is_parse_call(operand):
+            precs.add(_parse_prec(operand))
+            if any(pol for _, pol in nexts):
+                return None
+        else:
+            return None
+    if len(kinds) != 1 or len(precs) != 1 or not tags or None in tags:
+        return None
+    return kinds.pop(), precs.pop(), frozenset(tags)
 
 
 def _extract_terminals(model, P, table):
@@ -673,7 +755,11 @@ class ModelParser:
                 return ("FinalList", inner[1])
             return ("FinalList", (inner,))
         self.pos += 1
-        operand = self.expression(self.t.prec(prec))
+        short = getattr(self.t, "prefix_terminal_if", {}).get(tag)
+        if short and not self.at_end() and self.tag() in short:
+            operand = self.terminal()
+        else:
+            operand = self.expression(self.t.prec(prec))
         if op == "pos":
             return operand
         if op == "neg":
@@ -759,12 +845,15 @@ class ModelParser:
             return _join_slice(left, nxt)
         if br.shape == "COMMA":
             self.pos += 1
+            fr = (br.extra or {}).get("final_respected",
+                                      {"trailing": True, "extend": True})
+            is_final = left[0] in ("FinalTuple", "FinalList")
             if self.at_end() or self.tag() == "closepar":
-                if left[0] == "Tuple":
+                if left[0] == "Tuple" or (is_final and not fr["trailing"]):
                     return left
                 return ("Tuple", (left,))
             new = self.expression(t.prec(br.right_prec))
-            if left[0] == "Tuple":
+            if left[0] == "Tuple" or (is_final and not fr["extend"]):
                 return ("Tuple", tuple(left[1]) + (new,))
             return ("Tuple", (left, new))
         raise AnalysisError(f"shape {br.shape}")
